@@ -11,6 +11,9 @@
 #include <mutex>
 #include <condition_variable>
 #include <boost/thread/tss.hpp>  // thread_specific_ptr
+#if defined(KHIZMAX_LIBCDS_VERIF)
+#   include <cds_verif/sync.h>
+#endif
 
 
 namespace cds { namespace opt {
@@ -36,6 +39,17 @@ namespace cds { namespace algo { namespace flat_combining {
         See \p wait_strategy::empty wait strategy to explain the interface.
     */
     namespace wait_strategy {
+
+        //@cond
+#   if defined(KHIZMAX_LIBCDS_VERIF)
+        // the mutexes and condition variables of the waiting strategies are known to the model-checking scheduler
+        typedef cds_verif::mutex              fc_mutex_type;
+        typedef cds_verif::condition_variable fc_condvar_type;
+#   else
+        typedef std::mutex              fc_mutex_type;
+        typedef std::condition_variable fc_condvar_type;
+#   endif
+        //@endcond
 
         /// Empty wait strategy
         /**
@@ -187,11 +201,11 @@ namespace cds { namespace algo { namespace flat_combining {
         class single_mutex_single_condvar
         {
         //@cond
-            std::mutex  m_mutex;
-            std::condition_variable m_condvar;
+            fc_mutex_type  m_mutex;
+            fc_condvar_type m_condvar;
             bool        m_wakeup;
 
-            typedef std::unique_lock< std::mutex > unique_lock;
+            typedef std::unique_lock< fc_mutex_type > unique_lock;
         //@endcond
 
         public:
@@ -263,10 +277,10 @@ namespace cds { namespace algo { namespace flat_combining {
         class single_mutex_multi_condvar
         {
         //@cond
-            std::mutex  m_mutex;
+            fc_mutex_type  m_mutex;
             bool        m_wakeup;
 
-            typedef std::unique_lock< std::mutex > unique_lock;
+            typedef std::unique_lock< fc_mutex_type > unique_lock;
         //@endcond
 
         public:
@@ -281,7 +295,7 @@ namespace cds { namespace algo { namespace flat_combining {
                 struct type: public PublicationRecord
                 {
                     //@cond
-                    std::condition_variable m_condvar;
+                    fc_condvar_type m_condvar;
                     //@endcond
                 };
             };
@@ -343,7 +357,7 @@ namespace cds { namespace algo { namespace flat_combining {
         class multi_mutex_multi_condvar
         {
         //@cond
-            typedef std::unique_lock< std::mutex > unique_lock;
+            typedef std::unique_lock< fc_mutex_type > unique_lock;
         //@endcond
         public:
             enum {
@@ -357,8 +371,8 @@ namespace cds { namespace algo { namespace flat_combining {
                 struct type: public PublicationRecord
                 {
                     //@cond
-                    std::mutex              m_mutex;
-                    std::condition_variable m_condvar;
+                    fc_mutex_type           m_mutex;
+                    fc_condvar_type m_condvar;
                     bool                    m_wakeup;
 
                     type()
